@@ -512,6 +512,9 @@ func TestC17(t *testing.T) {
 			corsStorm(r, kind, r.N(4*1500, 16*20000)/r.Lanes)
 		}
 	}
+	// a case that has not ended after a minute of real time (normal: milliseconds) is examined for a
+	// goroutine spinning in library code (rep.Guard)
+	r.Guard(60 * time.Second)
 	n := r.N(3000, 300000)
 	for i := 0; i < n; i++ {
 		if !r.Only(i) {
@@ -520,7 +523,9 @@ func TestC17(t *testing.T) {
 		rng := r.CaseRand(17, i)
 		c := genC17(rng)
 		c.Seed = fmt.Sprintf("seed=%d lane=%d case=%d", r.Seed, r.Lane, i)
+		r.Begin(fmt.Sprint(i), c)
 		key, msg, stats := runC17(c, r)
+		r.End(fmt.Sprint(i))
 		r.Case(fmt.Sprintf("%s/%s/%v/%v/%d/%s/%s/%d/%v/%v/%v", c.Cookie, c.Cors, c.Creds, c.PreCont, c.OptStat, c.Methods, c.Headers, c.Sessions, c.Steps, c.Origins, c.JSONP), stats["sessions"] > 0)
 		for k, v := range stats {
 			r.Obs(k, v)
